@@ -28,6 +28,7 @@ type Op struct {
 	Kind      string     `json:"op"`
 	Sub       string     `json:"sub,omitempty"`
 	Variant   string     `json:"variant,omitempty"`
+	TooBig    int        `json:"too_big,omitempty"` // publish: the value of message TooBig-1 of the batch is replaced by one byte more than the format's 64 MiB bound: the Publish must fail and leave nothing behind
 	CrashDel  []int64    `json:"crash_delete,omitempty"` // reopen: the directory is replaced by its image taken inside a Delete of these offsets (after the rewrite, before the swap)
 	StopAfter int        `json:"stop_after,omitempty"`   // multi variants: the backoff fails on its n-th call (0 = never)
 	Msgs      []PubMsg   `json:"msgs,omitempty"`
@@ -181,7 +182,7 @@ func profileFor(prop string) *Profile {
 	case "C10":
 		p.W = map[string]int{"publish": 45, "delete": 25, "gc": 5, "reopen": 10, "trim": 3}
 		p.Cfgs = []ref.IndexCfg{{Times: true}, {Times: true, Keys: true}, {Times: true}, {}}
-		p.TimeModes = []string{"plateau", "plateau", "inc"}
+		p.TimeModes = []string{"plateau", "plateau", "inc", "plateau", "inc", "preepoch"}
 		p.MaxVal = 30
 	case "C11":
 		p.W = map[string]int{"publish": 40, "delete": 22, "gc": 3, "reopen": 20, "trim": 3, "compact": 2}
@@ -207,7 +208,8 @@ func profileFor(prop string) *Profile {
 		p.PClosedOps = 0.5
 		p.Versions = []int{0, 1, 2, 1, 2}
 	case "C20":
-		p.W = map[string]int{"publish": 45, "delete": 20, "gc": 3, "reopen": 10, "backup": 18}
+		p.W = map[string]int{"publish": 45, "delete": 20, "gc": 3, "reopen": 12, "backup": 18}
+		p.PRemoveIdx = 0.5
 	case "C19":
 		p.W = map[string]int{"publish": 50, "delete": 20, "gc": 3, "reopen": 10, "rosession": 15}
 	}
@@ -238,6 +240,10 @@ func newGenState(r *Rand, prof *Profile, histID string) *GenState {
 	g.big = r.Chance(0.04)
 	g.timeMode = pick(r, prof.TimeModes)
 	g.lastT = baseTime + int64(r.Intn(1000))
+	if g.timeMode == "preepoch" {
+		// non-decreasing times that start shortly before 1970-01-01 and cross it
+		g.lastT = -int64(10 + r.Intn(50))
+	}
 	if g.timeMode == "wall" {
 		// message times minutes apart, starting two hours before now (used for Compact(age))
 		g.wallBase = time.Now().Add(-2 * time.Hour).UnixMicro()
@@ -255,7 +261,7 @@ func (g *GenState) nextTime() (t int64, zero bool) {
 	switch g.timeMode {
 	case "inc":
 		g.lastT += int64(1 + r.Intn(3))
-	case "plateau":
+	case "plateau", "preepoch":
 		if !r.Chance(0.6) {
 			g.lastT += int64(1 + r.Intn(2))
 		}
@@ -318,6 +324,9 @@ func (g *GenState) genPublish() Op {
 	op := Op{Kind: "publish"}
 	for i := 0; i < n; i++ {
 		op.Msgs = append(op.Msgs, g.genMsg())
+	}
+	if n >= 1 && r.Chance(0.02) {
+		op.TooBig = 1 + r.Intn(n)
 	}
 	return op
 }
